@@ -2,6 +2,7 @@ package props
 
 import (
 	"os"
+	"strings"
 	"path/filepath"
 
 	"verifmc/core"
@@ -70,3 +71,18 @@ func believeIfReal(judge func(real bool) core.Outcome) core.Outcome {
 }
 
 func writeFile(path, content string) error { return os.WriteFile(path, []byte(content), 0o644) }
+
+// logLineFor reports whether line is a verbose-log line about path: the wording of the
+// log is not part of any property, only which files it mentions and in which order.
+func logLineFor(line, path string) bool {
+	return strings.Contains(line, path) && !strings.Contains(line, "\n")
+}
+
+// cutLogLine removes one leading log line about path from s.
+func cutLogLine(s, path string) (rest string, ok bool) {
+	i := strings.IndexByte(s, '\n')
+	if i < 0 || !logLineFor(s[:i], path) {
+		return s, false
+	}
+	return s[i+1:], true
+}
